@@ -13,9 +13,9 @@ import "github.com/maypok86/otter/v2/internal/generated/node"
 
 //@ func (*Striped).DrainTo : C05
 //@   assumed C17 is not applicable: hands every buffered read, each a node that was recorded by Add (hence not nil), to the consumer; the buffers themselves are invisible to the callers
-//@   modifies node::queueType, node::prev, node::next, node::prevExp, node::nextExp, ghost_inWheel(*), ghost_inDeque(*), policy::windowWeightedSize, policy::mainProtectedWeightedSize, policy::hitsInSample, Linked::*, sketch::*, []uint64::*
+//@   modifies node::queueType, node::prev, node::next, node::prevExp, node::nextExp, ghost_inWheel(*), ghost_inDeque(*), policy::windowWeightedSize, policy::mainProtectedWeightedSize, policy::hitsInSample, Linked::*, sketch::*, ghost_calls_increment(), []uint64::*
 //@   callback consumer: requires [recorded-node] cb_n != nil
-//@   callback consumer: modifies node::queueType, node::prev, node::next, node::prevExp, node::nextExp, ghost_inWheel(*), ghost_inDeque(*), policy::windowWeightedSize, policy::mainProtectedWeightedSize, policy::hitsInSample, Linked::*, sketch::*, []uint64::*
+//@   callback consumer: modifies node::queueType, node::prev, node::next, node::prevExp, node::nextExp, ghost_inWheel(*), ghost_inDeque(*), policy::windowWeightedSize, policy::mainProtectedWeightedSize, policy::hitsInSample, Linked::*, sketch::*, ghost_calls_increment(), []uint64::*
 //@   own-modifies
 
 // ---------------------------------------------------------------------------------------------
